@@ -6,12 +6,25 @@ TLC_NOTE = ("Trusted base: TLC 1.8, the TLA+ modules under /verif/spec (checked 
             "the harness's projection of real API results into the exchange format, serde's own dispatch. Bounds: see evidence.")
 
 CHECKS = [
+    {"property_id": "C01", "level": "model_checking", "design_ref": "DESIGN.md §6 C01",
+     "text": "TLC checks Dec(Enc(v)) = v and that every canonical presentation (named / rust / bare, SerdeModel!Canon) is must-ok and denotes v, "
+             "for every (schema, value) of the scope grammar x boundary values; each presentation is serialized and decoded back by the real code "
+             "(slice and chunked readers; natural, Rust-type-like and self-describing targets; borrow check on the slice path); round trips of "
+             "random schemas/values are trace-validated by TLC (SerAllowed + decoded = denoted value).",
+     "note": TLC_NOTE,
+     "technique": "TLA+ spec (AvroBinary.tla, SerdeModel.tla) + TLC bounded enumeration replayed into the code + TLC trace validation of recorded round trips"},
     {"property_id": "C03", "level": "model_checking", "design_ref": "DESIGN.md §6 C03",
      "text": "TLC checks, for every (schema, value) of the scope grammar x boundary values, that the specification's decoder inverts every "
              "block-layout variant and rejects every single-point malformation and proper prefix; each case is replayed on the real decoder "
              "(slice and chunked readers), and decode events of random schemas/values/layouts/corruptions are trace-validated by TLC against Dec.",
      "note": TLC_NOTE,
      "technique": "TLA+ spec (AvroBinary.tla Dec/Layouts/Mal) + TLC bounded enumeration replayed into the code + TLC trace validation of recorded decode events"},
+    {"property_id": "C12", "level": "model_checking", "design_ref": "DESIGN.md §6 C12",
+     "text": "TLC checks that the implementation-shaped skipping semantics (AvroSkip.tla: unvalidated strings, unsigned varints, jumping over sized blocks) "
+             "ends exactly where Dec ends for every layout of every enumerated value; the real decoder is run with every sub-tree (two levels) ignored, "
+             "followed by sentinel bytes, and must return everything else unchanged and consume exactly the datum; random cases are trace-validated (Trace_Skip).",
+     "note": TLC_NOTE,
+     "technique": "TLA+ spec (AvroSkip.tla refines AvroBinary.tla) checked by TLC + TLC-generated scenarios replayed with IgnoredAny / unit-variant targets + TLC trace validation"},
 ]
 
 _PENDING = "check not built yet in this revision of /verif (see DESIGN.md §10 build order); nothing is claimed"
